@@ -145,7 +145,8 @@ func mutateNodeText(c *ctx, s string) string {
 		e++
 	}
 	repl := []string{"n", "T", "i1", "i9007199254740992", "i-9007199254740992", "i9007199254740991", "s", str("=="), str("nope"), str("..a"), str(".a["), str("a"), "l()", "l(i1)", "m()",
-		"l(" + str("==") + "," + str(".a") + ")", "l(" + str("not") + ")", "l(" + str("and") + "," + str(".a") + ")", "b01", "d3ff0000000000000"}[c.rng.Intn(20)]
+		"l(" + str("==") + "," + str(".a") + ")", "l(" + str("not") + ")", "l(" + str("and") + "," + str(".a") + ")", "b01", "d3ff0000000000000",
+		"i9223372036854775808", "i18446744073709551615", "l(i1,m(61:i18446744073709551615))"}[c.rng.Intn(23)]
 	switch c.rng.Intn(4) {
 	case 0: // drop the element (and a neighbouring comma)
 		if e < len(s) && s[e] == ',' {
